@@ -34,6 +34,80 @@ def fix_env():
     _uuid.uuid4 = lambda: _uuid.UUID(int=7)
 
 
+def patch_crosshair_bitops():
+    """CrossHair realises a symbolic int on every bitwise operator (z3 Int has none).  The identities x|0 = x^0 = x, x&0 = 0,
+    x<<0 = x>>0 = x are sound for Python ints and keep e.g. UDFShortAD.record (`length | (extent_type << 30)` with type 0)
+    symbolic instead of enumerating the length value by value."""
+    if not SYM:
+        return
+    from crosshair.libimpl import builtinslib as bl
+    from crosshair.tracers import NoTracing
+    cls = bl.SymbolicIntable
+    if getattr(cls, '_vf_patched', False):
+        return
+
+    def wrap(name, neutral, absorbing=None):
+        orig = getattr(cls, name)
+
+        def f(self, other):
+            with NoTracing():
+                conc = type(other) is int
+            if conc:
+                if other == neutral:
+                    return self
+                if absorbing is not None and other == absorbing:
+                    return absorbing
+            return orig(self, other)
+        setattr(cls, name, f)
+    for nm in ('__or__', '__ror__', '__xor__', '__rxor__'):
+        wrap(nm, 0)
+
+    # x >> n = x // 2^n,  x << n = x * 2^n,  x & m = ((x // 2^a) % 2^k) * 2^a for a mask m of k contiguous ones starting at bit a:
+    # exact for Python's unbounded two's-complement ints (floor division / non-negative modulus), expressed in linear integer arithmetic
+    orig_and, orig_rand = cls.__and__, cls.__rand__
+    orig_rs, orig_ls = cls.__rshift__, cls.__lshift__
+
+    def _mask_run(m):
+        if m <= 0:
+            return None
+        a = (m & -m).bit_length() - 1
+        k = (m >> a).bit_length()
+        return (a, k) if (m >> a) == (1 << k) - 1 else None
+
+    def _and(self, other, orig=orig_and):
+        with NoTracing():
+            conc = type(other) is int
+        if conc:
+            if other == 0:
+                return 0
+            if other == -1:
+                return self
+            run = _mask_run(other)
+            if run is not None:
+                a_, k_ = run
+                return ((self // (1 << a_)) % (1 << k_)) * (1 << a_)
+        return orig(self, other)
+    cls.__and__ = _and
+    cls.__rand__ = lambda self, other: _and(self, other, orig_rand)
+
+    def _rs(self, n):
+        with NoTracing():
+            conc = type(n) is int
+        if conc and n >= 0:
+            return self if n == 0 else self // (1 << n)
+        return orig_rs(self, n)
+
+    def _ls(self, n):
+        with NoTracing():
+            conc = type(n) is int
+        if conc and n >= 0:
+            return self if n == 0 else self * (1 << n)
+        return orig_ls(self, n)
+    cls.__rshift__ = _rs
+    cls.__lshift__ = _ls
+    cls._vf_patched = True
+
+
 def pycdlib_modules():
     import pycdlib  # noqa
     from pycdlib import dates, dr, eltorito, isohybrid, utils, rockridge, headervd, path_table_record, udf, inode
@@ -45,6 +119,7 @@ def install_struct_model():
     """Replace the `struct` attribute of every imported pycdlib module by M_struct (sym mode only)."""
     if not SYM:
         return False
+    patch_crosshair_bitops()
     from vf.models import smodel
     for m in pycdlib_modules():
         if hasattr(m, 'struct'):
@@ -281,11 +356,25 @@ class ImageFP:
 
 
 def disjoint(spans):
-    """all (lo,hi) half-open intervals pairwise disjoint (symbolic-friendly)"""
+    """all (lo,hi) half-open intervals pairwise disjoint.  Concrete intervals are checked natively (sort + sweep); only pairs that involve a
+    symbolic end point become solver terms, combined with & and | (one formula, no path fork)."""
+    conc = []
+    sym = []
+    for s in spans:
+        if concrete(s[0]) and concrete(s[1]):
+            conc.append((s[0], s[1]))
+        else:
+            sym.append(s)
+    conc.sort()
+    for i in range(len(conc) - 1):
+        if conc[i][1] > conc[i + 1][0] and conc[i][0] != conc[i][1] and conc[i + 1][0] != conc[i + 1][1]:
+            return False
     ok = True
-    for i in range(len(spans)):
-        a = spans[i]
-        for j in range(i + 1, len(spans)):
-            b = spans[j]
+    for i in range(len(sym)):
+        a = sym[i]
+        for j in range(i + 1, len(sym)):
+            b = sym[j]
+            ok = ok & ((a[1] <= b[0]) | (b[1] <= a[0]))
+        for b in conc:
             ok = ok & ((a[1] <= b[0]) | (b[1] <= a[0]))
     return ok
